@@ -32,7 +32,7 @@ MANIFEST = dict(
          "Pipeline model in lock-step against the real observer on the real kernel (see C01); after every history a probe "
          "file is created in EVERY directory of the final tree and must be reported under its real path (recursive) / only "
          "in the root (non-recursive); theorems in coq/Props/C02.v over the model."
-         " BURSTS of file-level operations (several operations before a read, no directory created, removed or renamed, no record coalesced by the kernel across an operation border): the state after the burst's reads is synchronised and covered again, also on the Pipeline model with cut reads (C02_burst_files_cover, C02_burst_files_cover_pipeline); the bursts gap is thereby narrowed to bursts with directory operations.",
+         " BURSTS of file-level operations (several operations before a read, no directory created, removed or renamed, no record coalesced by the kernel across an operation border): the state after the burst's reads is synchronised and covered again, also on the Pipeline model with cut reads (C02_burst_files_cover, C02_burst_files_cover_pipeline); the bursts gap is thereby narrowed to bursts with directory operations. A burst WITH directory operations, the arrival shape `mkdir p; <mkdir / touch strictly below p>` read in one read (recursive watch, p in scope, fixed _recursive_simulate, no fault): one kernel record, and the state after the read is synchronised with every arrived directory covered (C02_burst_arrival_cover, C02_burst_arrival_pipeline on the Pipeline model); other bursts with directory operations remain stated-only.",
     note="Trusted: as C01. See coq/Props/C02.v for which part of the cover invariant is a theorem.",
     technique="Coq proof over an executable pipeline model + lock-step correspondence against the real kernel + probe oracle in every directory",
 )
